@@ -20,6 +20,7 @@ RULE = (
     "n_chunks > C(n,2) (partition cases: n_chunks>=2 and n>=3). distinct = distinct case JSON."
     ' Also: a production-size task (1.25 million experiments x 15 samples; thorough: two more) and fixed cases with one interpreter process per chunk.'
     ' Half the API cases compute with a ThetaHolder subclass that builds its samples on request; a third of the small CLI cases name the first file of samples twice.'
+    ' A third of the cases with >= 2 samples re-enter the metric object (another distance computed at every line of one distance call).'
 )
 ASSUMPTIONS = [
     "the oracle recomputes MSEDistance as mean((expit(a)-expit(b))**2) resp. mean((a-b)**2) on the samples' viability predictions (rtol 1e-12)",
@@ -189,6 +190,19 @@ def check_case(case):
             require(dij == dji, "metric.symmetric", lambda: "d(%d,%d)=%r != d(%d,%d)=%r" % (i, j, dij, j, i, dji))
             require(dij >= 0, "metric.nonnegative", lambda: "d=%r" % dij)
         require(metric.distance(preds[i], preds[i].copy()) == 0, "metric.identity", "distance of identical predictions is not 0")
+    if n >= 2 and (n + k) % 3 == 0:
+        # re-entrancy: while the metric object computes one distance, it is asked for another one (a callback, a signal handler,
+        # another thread sharing the object); both answers must be the undisturbed ones
+        from vf import interrupt
+
+        a_, b_ = preds[0], preds[1]
+        c_, d_ = preds[1] * 0.5 + 0.25, preds[0][::-1].copy()
+        want_ab, want_cd = metric.distance(a_, b_), metric.distance(c_, d_)
+        for point in range(1, 80):
+            got_ab, got_cd, fired = interrupt.reentered_at(lambda: metric.distance(a_, b_), point, lambda: metric.distance(c_, d_))
+            if not fired:
+                break
+            require(got_ab == want_ab and got_cd == want_cd, "metric.reentrant", lambda: "a distance during whose computation (line event %d) the same metric object computed another distance: %r (undisturbed %r); the inner one %r (on its own %r)" % (point, got_ab, want_ab, got_cd, want_cd))
 
     def oracle(a, b):
         if case["sigmoid"]:
